@@ -1,6 +1,7 @@
 """riolib.thorough — the thorough tier: additional build configurations, compile-fail witnesses and
 checker self-tests on seeded / neutral variants of /repo's current tree (scratch copies outside
 /repo and /verif, deleted as soon as they have been analysed)."""
+import re
 import glob
 import json
 import os
@@ -138,6 +139,13 @@ def apply_variant(v, dst):
             return False, "no file %s" % s["file"]
         with open(p) as fh:
             t = fh.read()
+        if "re" in s:  # identifier rename: every occurrence of the pattern
+            t2, n = re.subn(s["re"], s["to"], t)
+            if n < s.get("min", 1):
+                return False, "pattern %s occurs %d times in %s" % (s["re"], n, s["file"])
+            with open(p, "w") as fh:
+                fh.write(t2)
+            continue
         if t.count(s["old"]) != 1:
             return False, "substitution target occurs %d times in %s" % (t.count(s["old"]), s["file"])
         with open(p, "w") as fh:
